@@ -25,6 +25,10 @@ pub enum Ev {
     Hard(u8),
     /// Ok(0) although data is left: the stream ends here
     Eof,
+    /// a *nested* complete hash_stream call on another small stream from inside read() — on the same thread (re-entrancy:
+    /// tee / manifest readers do this) or on a freshly spawned thread that is joined before read() returns (two calls
+    /// overlapping in time: process-wide scratch state is contended at a point the reader controls).  Then delivers like Deliver(k).
+    Nested { other_thread: bool, k: u32 },
     /// contract violation (C17 only): report n + extra bytes although at most buf.len() can be written.
     /// 0: buf.len()+1, 1: buf.len()+1_000_000, 2: usize::MAX, 3: honest count but nothing written (legal)
     Lie(u8),
@@ -93,6 +97,9 @@ pub struct SimReader<'a> {
     /// some read on a non-empty buffer returned Ok(0): the only way a caller can learn that the stream ended
     pub signalled_eof: bool,
     pub post_eof_calls: u64,
+    pub nested_calls: u64,
+    /// a nested call returned something else than hash_buf of its own stream
+    pub nested_wrong: Option<String>,
 }
 
 impl<'a> SimReader<'a> {
@@ -122,6 +129,8 @@ impl<'a> SimReader<'a> {
             hard_after_mib: false,
             signalled_eof: false,
             post_eof_calls: 0,
+            nested_calls: 0,
+            nested_wrong: None,
         }
     }
     fn deliver(&mut self, buf: &mut [u8], k: usize) -> usize {
@@ -181,6 +190,18 @@ impl SimReader<'_> {
         }
         match ev {
             Ev::Deliver(k) => Ok(self.deliver(buf, k.max(1) as usize)),
+            Ev::Nested { other_thread, k } => {
+                self.nested_calls += 1;
+                let r = if other_thread {
+                    std::thread::scope(|s| s.spawn(nested_call).join().unwrap_or_else(|_| Err("nested call panicked on its thread".to_string())))
+                } else {
+                    nested_call()
+                };
+                if let Err(e) = r {
+                    self.nested_wrong.get_or_insert(e);
+                }
+                Ok(self.deliver(buf, k.max(1) as usize))
+            }
             Ev::Eintr => {
                 self.fired_eintr += 1;
                 self.cur_eintr_run += 1;
@@ -226,6 +247,41 @@ impl SimReader<'_> {
                 }
             }
         }
+    }
+}
+
+/// The inner stream of a nested call: 300 seeded bytes through a small fault script of its own.
+fn nested_call() -> Result<(), String> {
+    struct Inner {
+        data: [u8; 300],
+        pos: usize,
+        step: u32,
+    }
+    impl Read for Inner {
+        fn read(&mut self, buf: &mut [u8]) -> io::Result<usize> {
+            self.step += 1;
+            if self.step % 3 == 1 && self.step < 12 {
+                return Err(io::Error::from(ErrorKind::Interrupted));
+            }
+            let n = buf.len().min(self.data.len() - self.pos).min(if self.step % 2 == 0 { 113 } else { 7 });
+            buf[..n].copy_from_slice(&self.data[self.pos..self.pos + n]);
+            self.pos += n;
+            Ok(n)
+        }
+    }
+    let mut data = [0u8; 300];
+    Rng::new(0x1234_5678).fill(&mut data);
+    let want = render::<tlsh::Tlsh>(&tlsh::hash_buf(&data));
+    let mut inner = Inner { data, pos: 0, step: 0 };
+    let got = match tlsh::hash_stream(&mut inner) {
+        Ok(h) => render::<tlsh::Tlsh>(&Ok(h)),
+        Err(tlsh::GeneratorOrIOError::GeneratorError(e)) => format!("Err({e:?})"),
+        Err(tlsh::GeneratorOrIOError::IOError(e)) => format!("IOError({:?})", e.kind()),
+    };
+    if got == want {
+        Ok(())
+    } else {
+        Err(format!("nested hash_stream on a 300-byte stream (with three Interrupted results) returned {got}, want {want}"))
     }
 }
 
@@ -343,6 +399,10 @@ impl Scenario for C12 {
                 script.insert(at2, Ev::Hard(((kind as usize + 1) % HARD_TOTAL) as u8));
             }
         }
+        if sub != 0 && r.chance(1, 5) {
+            let at = r.below(script.len() as u64 + 1) as usize;
+            script.insert(at, Ev::Nested { other_thread: r.chance(1, 2), k: r.range(1, 5000) as u32 });
+        }
         if self.lies {
             // C17 flavour: some runs carry one lie somewhere (sub 0 stays honest)
             if sub != 0 {
@@ -380,6 +440,7 @@ impl Scenario for C12 {
         if rd.lied {
             st.hit("fault.lie");
         }
+        st.add("fault.nested_call_inside_read", rd.nested_calls);
         if rd.exact_mib_read {
             st.hit("probe.read_exactly_1MiB");
         }
@@ -402,7 +463,7 @@ impl Scenario for C12 {
             st.hit("probe.multi_read");
         }
         let mut fnv = Fnv::new();
-        let fired_fault = rd.fired_eintr > 0 || rd.fired_hard > 0 || rd.fired_eof || (rd.scribble && rd.calls > 0) || rd.lied;
+        let fired_fault = rd.nested_calls > 0 || rd.fired_eintr > 0 || rd.fired_hard > 0 || rd.fired_eof || (rd.scribble && rd.calls > 0) || rd.lied;
         let nontrivial = rd.calls >= 2 && (h.sub == 0 || fired_fault);
         let states = vec![
             (api as u64) << 32
@@ -416,6 +477,11 @@ impl Scenario for C12 {
         ];
         let mk = |class: &str, detail: String| Some(Violation { class: class.to_string(), detail });
         // --- oracle ---
+        if let Some(e) = &rd.nested_wrong {
+            if !(self.lies && rd.lied) {
+                return Outcome { violation: mk("nested-call-wrong", e.clone()), digest: 1, nontrivial, states };
+            }
+        }
         let violation = match &got {
             Err(p) => {
                 fnv.write(b"panic");
@@ -571,6 +637,7 @@ impl Scenario for C12 {
                 Ev::Hard(k) => format!("Hard({k})"),
                 Ev::Eof => "Eof".to_string(),
                 Ev::Lie(k) => format!("Lie({k})"),
+                Ev::Nested { other_thread, k } => format!("Nested({},{k})", *other_thread as u8),
             })
             .collect();
         json!({
@@ -596,6 +663,10 @@ impl Scenario for C12 {
                 Ev::Hard(arg(s)? as u8)
             } else if s.starts_with("Lie") {
                 Ev::Lie(arg(s)? as u8)
+            } else if s.starts_with("Nested") {
+                let a = s.find('(').ok_or("(")?;
+                let parts: Vec<&str> = s[a + 1..s.len() - 1].split(',').collect();
+                Ev::Nested { other_thread: parts[0].trim() == "1", k: parts.get(1).and_then(|x| x.trim().parse().ok()).unwrap_or(1) }
             } else {
                 return Err(format!("unknown event {s}"));
             });
